@@ -144,8 +144,16 @@ pub struct World {
 
 impl World {
     pub fn new(r: &mut Rng, sim: &Sim, nm: usize) -> World {
+        let mut masters: Vec<Master> = (0..nm).map(|k| rand_master(r, k)).collect();
+        // sometimes the second master is another PORT of the first master's clock
+        // (two ports of one boundary clock on the segment): identities then differ
+        // in the port number only
+        if nm >= 2 && r.chance(1, 5) {
+            masters[1].clock = masters[0].clock;
+            masters[1].port = if masters[0].port == 1 { 2 } else { 1 };
+        }
         World {
-            masters: (0..nm).map(|k| rand_master(r, k)).collect(),
+            masters,
             now: match r.below(4) {
                 0 => 5 * NS * FRAC,
                 1 => ((1u128 << 47) * NS + 999_999_999) * FRAC,
@@ -597,19 +605,23 @@ pub fn sync_frames(r: &mut Rng, w: &mut World, m: usize, two_step: bool, t2: u12
     (sync, fup)
 }
 
-pub fn gen_c09(r: &mut Rng) -> (String, Sim) {
-    let (mut sim, mut w) = slave_setup(r, false);
+/// one event of the end-to-end slave exchange mix (Sync/Follow_Up in any order, duplicates,
+/// delayed deliveries, Delay_Req timer, transmit timestamps of any pending request,
+/// Delay_Resp with matching / neighbouring sequence ids, announces, take-over)
+pub fn c09_event(
+    r: &mut Rng,
+    sim: &Sim,
+    w: &mut World,
+    stash: &mut Vec<Ev>,
+    kinds: &mut std::collections::BTreeSet<&'static str>,
+) -> Ev {
     let own = sim.icfg.clock_identity;
-    let mut kinds = std::collections::BTreeSet::new();
-    let n = 15 + r.below(30);
-    let mut stash: Vec<Ev> = Vec::new(); // delayed / duplicated deliveries
-    for _ in 0..n {
-        let ev = match r.below(16) {
+    let ev = match r.below(16) {
             0..=3 => {
                 let two = r.chance(2, 3);
                 let t2 = w.tick(r);
                 let m = if r.chance(7, 8) { 0 } else { 1 };
-                let (s, f) = sync_frames(r, &mut w, m, two, t2);
+                let (s, f) = sync_frames(r, w, m, two, t2);
                 kinds.insert(if two { "2step" } else { "1step" });
                 let (first, second) = if r.chance(1, 5) {
                     kinds.insert("fup-first");
@@ -688,6 +700,16 @@ pub fn gen_c09(r: &mut Rng) -> (String, Sim) {
                 Ev::RecvGeneral(0, f)
             }
         };
+    ev
+}
+
+pub fn gen_c09(r: &mut Rng) -> (String, Sim) {
+    let (mut sim, mut w) = slave_setup(r, false);
+    let mut kinds = std::collections::BTreeSet::new();
+    let n = 15 + r.below(30);
+    let mut stash: Vec<Ev> = Vec::new(); // delayed / duplicated deliveries
+    for _ in 0..n {
+        let ev = c09_event(r, &sim, &mut w, &mut stash, &mut kinds);
         if !sim.step(ev) {
             break;
         }
@@ -1912,12 +1934,13 @@ pub fn gen_c03(r: &mut Rng) -> (String, Sim) {
 /// Long unobserved warm-up followed by a short observed tail: one host call
 /// repeated ~65530 times so that the 16-bit sequence id of the generator it
 /// drives wraps inside the observed tail.  Case type `wcase` (Port/WarmCases.v).
-pub fn gen_warm(index: u64, r: &mut Rng) -> (String, String) {
-    let kind = index % 4;
+pub fn gen_warm(index: u64, r: &mut Rng, only_kind: Option<u64>) -> (String, String) {
+    let kind = only_kind.unwrap_or(index % 4);
     let mut icfg = rand_inst_cfg(r);
     let mut cfg = rand_port_cfg(r);
     cfg.acceptable = None;
     cfg.master_only = false;
+    let mut world: Option<World> = None;
     let (mut sim, rep, name) = match kind {
         0 | 1 => {
             icfg.slave_only = false;
@@ -1930,7 +1953,8 @@ pub fn gen_warm(index: u64, r: &mut Rng) -> (String, String) {
             }
         }
         2 => {
-            let (sim, _w) = slave_setup(r, false);
+            let (sim, w) = slave_setup(r, false);
+            world = Some(w);
             (sim, Ev::DelayReqTimer(0), "delay_req")
         }
         _ => {
@@ -1940,7 +1964,15 @@ pub fn gen_warm(index: u64, r: &mut Rng) -> (String, String) {
         }
     };
     let pre_n = sim.events.len();
-    let count = 65520 + r.below(14) as usize;
+    // the end-to-end slave case wraps right at the start of the tail
+    let scripted = kind == 2 && r.chance(2, 3);
+    let count = if scripted {
+        65535 // the two scripted requests are 65535 and 0
+    } else if kind == 2 {
+        65533 + r.below(3) as usize
+    } else {
+        65520 + r.below(14) as usize
+    };
     let mut alive = true;
     for _ in 0..count {
         if !sim.step(rep.clone()) {
@@ -1956,9 +1988,51 @@ pub fn gen_warm(index: u64, r: &mut Rng) -> (String, String) {
     let warm_end = sim.events.len();
     let warm_ok = alive;
     let tail = 24 + r.below(8);
+    let mut stash: Vec<Ev> = Vec::new();
+    let mut kinds = std::collections::BTreeSet::new();
+    if world.is_some() && alive && scripted {
+        // scripted start: two further requests, then the transmit timestamp of the OLDER
+        // one arrives late, then the newer one's
+        for step in 0..5 {
+            if !alive {
+                break;
+            }
+            let n = sim.pending[0].len();
+            let ts = world.as_mut().unwrap().tick(r);
+            let ev = match step {
+                0 | 1 => rep.clone(),
+                2 if n >= 2 => Ev::SendTimestamp(0, n - 2, ts),
+                3 if n >= 1 => Ev::SendTimestamp(0, n - 1, ts),
+                4 => {
+                    // the parent answers the newest request
+                    let w = world.as_mut().unwrap();
+                    let (seq, _) = w.last_delay_req[0].clone().unwrap_or((0, vec![]));
+                    let (clock, port) = (w.masters[0].clock, w.masters[0].port);
+                    let mut h = w.hdr(DELAY_RESP, clock, port, seq);
+                    h.correction = corr(r);
+                    let (sec, nano) = wire_ts(ts);
+                    let mut body = ts10(sec, nano);
+                    body.extend_from_slice(&pid10(sim.icfg.clock_identity, 1));
+                    Ev::RecvGeneral(0, frame(&h, &body, &[]))
+                }
+                _ => rep.clone(),
+            };
+            alive = sim.step(ev);
+            world.as_mut().unwrap().observe(&sim);
+        }
+    }
     for k in 0..tail {
         if !alive {
             break;
+        }
+        if let Some(w) = world.as_mut() {
+            // end-to-end slave: the full exchange mix (late / double transmit timestamps of
+            // any pending request, Delay_Resp for the current or a neighbouring id, ...)
+            // while the Delay_Req sequence id wraps; the timer fires often enough to wrap
+            w.observe(&sim);
+            let ev = if k % 3 == 0 { rep.clone() } else { c09_event(r, &sim, w, &mut stash, &mut kinds) };
+            alive = sim.step(ev);
+            continue;
         }
         if k % 3 == 2 && !sim.pending[0].is_empty() {
             let last = sim.pending[0].len() - 1;
